@@ -65,6 +65,13 @@ class RewriteMonitor(Monitor):
         w = self.w
         self.pre_count = None
         self.pre_dists = None
+        self.pre_params = None
+        if op["op"] == "copy" and w.has("c", op.get("c")):
+            try:
+                self.pre_params = [id(p) for p in
+                                   w.pool["c"][op["c"]].get_all_params()]
+            except Exception:  # noqa: BLE001
+                self.pre_params = None
         if op["op"] in REWRITES and w.has("c", op.get("c")):
             c = w.pool["c"][op["c"]]
             try:
@@ -131,6 +138,27 @@ class RewriteMonitor(Monitor):
         if k == "copy" and ok:
             src, dst = ("c", op["c"]), ("c", op["out"])
             self.family[op["out"]] = self.fam(op["c"])
+            # copying must leave the original as it was, its parameter
+            # objects included (the copy may share them, never take them)
+            if self.pre_params is not None:
+                try:
+                    now = [id(p) for p in w.pool["c"][op["c"]].get_all_params()]
+                except Exception:  # noqa: BLE001
+                    now = None
+                if now is not None and sorted(now) != sorted(self.pre_params):
+                    vs.append(self.v({"kind": "copy_altered_original_parameters",
+                                      "freeze": bool(op.get("freeze"))},
+                                     f"{src}: listed {len(self.pre_params)} "
+                                     f"parameters before copy(), {len(now)} after"))
+                if op.get("freeze"):
+                    new = w.pool["c"][op["out"]]
+                    try:
+                        n_new = len(new.get_all_params())
+                    except Exception:  # noqa: BLE001
+                        n_new = 0
+                    if n_new:
+                        vs.append(self.v({"kind": "frozen_copy_has_parameters"},
+                                         f"{dst} lists {n_new} parameters"))
             old, new = after.get(src), after.get(dst)
             if old is not None and new is not None:
                 w.probe("copy_frozen" if op.get("freeze") else "copy_plain")
